@@ -6,6 +6,7 @@ import (
 	"fmt"
 	"go/ast"
 	"go/types"
+	"sort"
 	"strings"
 )
 
@@ -19,6 +20,7 @@ func (c *RC) timerFn(name string) *FuncInfo { return c.Prog.ByName["timer:Timer.
 // timerRoles derives the private field roles of timer.Timer from its public methods and field types.
 type timerRoles struct {
 	height, view, dur, start, tt, ch string // locations "recv.<field>"
+	ext                              []string // accumulators of extensions: locations Reset sets to 0 on every path (the total is dur + Σ ext)
 }
 
 func (c *RC) timerRoles() *timerRoles {
@@ -53,7 +55,22 @@ func (c *RC) timerRoles() *timerRoles {
 		}
 	}
 	if reset := c.timerFn("Reset"); reset != nil && len(reset.Params) == 3 {
-		for _, e := range c.exitsFrom(reset, newState(), true) {
+		exits := c.exitsFrom(reset, newState(), true)
+		zeroed := map[string]int{}
+		for _, e := range exits {
+			for loc, v := range e.FieldVal {
+				if v != nil && v.K == KConst && v.S == "0" && strings.HasPrefix(loc, "recv.") {
+					zeroed[loc]++
+				}
+			}
+		}
+		for loc, n := range zeroed {
+			if n == len(exits) {
+				tr.ext = append(tr.ext, loc)
+			}
+		}
+		sort.Strings(tr.ext)
+		for _, e := range exits {
 			for loc, v := range e.FieldVal {
 				if v.S == "p:"+reset.Params[2].Name() {
 					tr.dur = loc
@@ -274,13 +291,24 @@ func ruleTimerExtend(c *RC) *RuleResult {
 	for _, e := range exits {
 		r.Sites++
 		bad := ""
-		v := e.FieldVal[tr.dur]
-		if v == nil || nfString(v) != nfString(mkTerm(KBin, "+", fld(tr.dur, false), mkTerm(KParam, ext.Params[0].Name()))) {
-			got := "unchanged"
-			if v != nil {
-				got = nfString(v)
+		// the total is the duration field plus the extension accumulators (fields Reset sets to 0)
+		cur := func(loc string) *Term {
+			if v := e.FieldVal[loc]; v != nil {
+				return v
 			}
-			bad = "stored total is " + got + ", expected " + tr.dur + " + " + p
+			return fld(loc, false)
+		}
+		after, before, changed := cur(tr.dur), fld(tr.dur, false), e.FieldVal[tr.dur] != nil
+		for _, x := range tr.ext {
+			after, before = mkTerm(KBin, "+", after, cur(x)), mkTerm(KBin, "+", before, fld(x, false))
+			changed = changed || e.FieldVal[x] != nil
+		}
+		if !changed || nfString(after) != nfString(mkTerm(KBin, "+", before, mkTerm(KParam, ext.Params[0].Name()))) {
+			got := "unchanged"
+			if changed {
+				got = nfString(after)
+			}
+			bad = "stored total is " + got + ", expected " + nfString(before) + " + " + p
 		}
 		for _, loc := range []string{tr.start, tr.height, tr.view} {
 			if e.Killed[loc] != 0 {
@@ -309,7 +337,11 @@ func ruleTimerExtend(c *RC) *RuleResult {
 			for _, sn := range s.Snaps {
 				n++
 				r.Sites++
-				want := nfString(mkTerm(KBin, "-", fld(tr.dur, false), mkTerm(KCall, "time.Since", fld(tr.start, false))))
+				total := fld(tr.dur, false)
+				for _, x := range tr.ext {
+					total = mkTerm(KBin, "+", total, fld(x, false))
+				}
+				want := nfString(mkTerm(KBin, "-", total, mkTerm(KCall, "time.Since", fld(tr.start, false))))
 				if len(sn.Args) == 1 && nfString(sn.Args[0]) == want {
 					r.ok("Extend re-arms for recv.d − time.Since(recv.s) (after total += d)")
 				} else {
@@ -323,6 +355,10 @@ func ruleTimerExtend(c *RC) *RuleResult {
 				guarded := false
 				for _, l := range sn.TrailL {
 					if l.Pos && l.A.Op == "lt" && l.A.A.S == "time.Since("+tr.start+")" && l.A.B.S == tr.dur {
+						guarded = true
+					}
+					// the same guard written as 0 < total − elapsed
+					if l.Pos && l.A.Op == "lt" && l.A.A != nil && l.A.B != nil && l.A.A.K == KConst && l.A.A.S == "0" && nfString(l.A.B) == want {
 						guarded = true
 					}
 				}
